@@ -771,6 +771,59 @@ theorem gmd_correct_complex : GmdStatementComplex :=
     @GmdInv.gmd_sound ℂ _ _ _ GmdInv.leRe GmdInv.decLeRe Complex.ofRealHom GmdInv.realLike_complex
       m n U V S sb hp hU hV hS hmono hsb hprod
 
+/-- EVERY TOLERANCE (`tol > 0` drops the singular values below it: `p = #{S ≥ tol} ≤ min m n` are
+    in use).  If the first `p` singular values are positive and non-increasing and `σ̄^p` is their
+    product, the sweep on `p` values raises nothing and returns `Q, R, P` with
+    `Q R Pᵀ = U Σ_p Vᵀ` — the rank-`p` truncation of `A`: the singular values beyond the first `p`
+    replaced by zero (whatever they are: they are never read) —, orthonormal `Q`, `P`,
+    upper-triangular `R` with `σ̄` on the first `p` diagonal entries.  `gmd_correct` is the case
+    `p = min m n`. -/
+theorem gmd_correct_truncated (m n : Nat) (U : Mat ℝ m m) (V : Mat ℝ n n) (S : Fin (min m n) → ℝ)
+    (sb : ℝ) (p : Nat) (hp : 0 < p) (hpmn : p ≤ min m n)
+    (hU : matMul (cT U) U = eye) (hV : matMul (cT V) V = eye)
+    (hS : ∀ i : Fin (min m n), i.val < p → 0 < S i)
+    (hmono : ∀ i j : Fin (min m n), i ≤ j → j.val < p → S j ≤ S i) (hsb : 0 < sb)
+    (hprod : sb ^ p = ∏ i : Fin (min m n), if i.val < p then S i else 1) :
+    ∃ Q R P mg, gmd m n p sb (colsOf U) (Array.ofFn S) (colsOf V) = .ok (Q, R, P, mg) ∧
+      (let Qm : Mat ℝ m m := fun i j => entryCols Q i.val j.val
+       let Rm : Mat ℝ m n := fun i j => entryRows R i.val j.val
+       let Pm : Mat ℝ n n := fun i j => entryCols P i.val j.val
+       matMul (matMul Qm Rm) (cT Pm)
+         = matMul (matMul U (sigmaMat (fun i => if i.val < p then S i else 0))) (cT V) ∧
+       matMul (cT Qm) Qm = eye ∧ matMul (cT Pm) Pm = eye ∧
+       (∀ i j, j.val < i.val → Rm i j = 0) ∧
+       (∀ i j, i.val = j.val → i.val < p → Rm i j = sb)) :=
+  GmdInv.gmd_sound_p GmdInv.realLike_real m n U V S sb p hp hpmn hU hV hS hmono hsb
+    (hprod.trans (GmdInv.prod_trunc S p hpmn))
+
+/-- the same for complex matrices -/
+theorem gmd_correct_truncated_complex (m n : Nat) (U : Mat ℂ m m) (V : Mat ℂ n n)
+    (S : Fin (min m n) → ℝ) (sb : ℝ) (p : Nat) (hp : 0 < p) (hpmn : p ≤ min m n)
+    (hU : matMul (cT U) U = eye) (hV : matMul (cT V) V = eye)
+    (hS : ∀ i : Fin (min m n), i.val < p → 0 < S i)
+    (hmono : ∀ i j : Fin (min m n), i ≤ j → j.val < p → S j ≤ S i) (hsb : 0 < sb)
+    (hprod : sb ^ p = ∏ i : Fin (min m n), if i.val < p then S i else 1) :
+    ∃ Q R P mg, @gmd ℂ _ _ _ _ _ _ _ _ GmdInv.leRe GmdInv.decLeRe m n p (sb : ℂ) (colsOf U)
+        (Array.ofFn (fun i => ((S i : ℝ) : ℂ))) (colsOf V) = .ok (Q, R, P, mg) ∧
+      (let Qm : Mat ℂ m m := fun i j => entryCols Q i.val j.val
+       let Rm : Mat ℂ m n := fun i j => entryRows R i.val j.val
+       let Pm : Mat ℂ n n := fun i j => entryCols P i.val j.val
+       matMul (matMul Qm Rm) (cT Pm)
+         = matMul (matMul U (sigmaMat (fun i => (((if i.val < p then S i else 0 : ℝ)) : ℂ)))) (cT V) ∧
+       matMul (cT Qm) Qm = eye ∧ matMul (cT Pm) Pm = eye ∧
+       (∀ i j, j.val < i.val → Rm i j = 0) ∧
+       (∀ i j, i.val = j.val → i.val < p → Rm i j = (sb : ℂ))) :=
+  @GmdInv.gmd_sound_p ℂ _ _ _ GmdInv.leRe GmdInv.decLeRe Complex.ofRealHom GmdInv.realLike_complex
+    m n U V S sb p hp hpmn hU hV hS hmono hsb (hprod.trans (GmdInv.prod_trunc S p hpmn))
+
+/-- the value the code passes as `sigma_bar`, `math.exp(np.mean(np.log(S[0:p])))`, read over the
+    reals, is positive and its `p`-th power is the product of the singular values in use — the
+    hypothesis on `σ̄` of `gmd_correct` / `gmd_correct_truncated` -/
+theorem gmd_sigma_bar_is_geometric_mean (p : Nat) (S : Fin p → ℝ) (hp : 0 < p) (hS : ∀ i, 0 < S i) :
+    0 < Real.exp ((∑ i, Real.log (S i)) / p) ∧
+    Real.exp ((∑ i, Real.log (S i)) / p) ^ p = ∏ i, S i :=
+  ⟨Real.exp_pos _, GmdInv.exp_mean_log_pow p S hp hS⟩
+
 /-- the existence of a straddling partner, stated on its own: if the pivot `d[k] ≥ σ̄` and
     `d[k] · ∏ S[lo..hi) = σ̄^(hi−lo+1)` with positive `S`, the smallest remaining value `S sm` is
     either `< σ̄` (a rotation with well-defined parameters) or the pivot already equals `σ̄`
